@@ -94,8 +94,20 @@ fn occs_str(v: Vec<text2num::Occurence>) -> String {
 
 /// phrases per language built from the reference spellers, chosen to collide on the same code
 /// paths: compounds (word splitter), ambiguous words, decimals, ordinals, conjunctions
-pub fn phrases(l: L) -> (String, String, String) {
+pub fn phrases(l: L, short: bool) -> (String, String, String) {
     let s = |n| spell::spell(l, n, Var::default());
+    if short {
+        // thread programs: few tokens (the schedule space grows with the square of the points)
+        let ord = ordspell::ord_forms(l, 3, Var::default()).remove(0).text;
+        let amb = match l {
+            L::En => "o".to_string(),
+            L::Fr => "un neuf".to_string(),
+            _ => s(6),
+        };
+        let p1 = format!("{} {} {} {}", s(21), l.sep(), spell_fraction(l, "05"), ord);
+        let p2 = format!("{} , {} {}", s(7), amb, s(90));
+        return (p1, p2, s(3_456));
+    }
     let ord = ordspell::ord_forms(l, 3, Var::default()).remove(0).text;
     let amb = match l {
         L::En => "twenty o o xyzzy".to_string(),
@@ -133,7 +145,10 @@ pub fn phrase3(l: L) -> String {
 
 /// One API call; every callback into harness code and both call boundaries are scheduling points.
 pub fn call<I: LangInterpreter>(lang: &I, l: L, i: usize) -> String {
-    let (p1, p2, compound) = phrases(l);
+    call_on(lang, l, i, false)
+}
+pub fn call_on<I: LangInterpreter>(lang: &I, l: L, i: usize, short: bool) -> String {
+    let (p1, p2, compound) = phrases(l, short);
     sched::point();
     let r = guard(|| match i {
         0 => {
@@ -212,7 +227,7 @@ fn histories(ctx: &Ctx, acc: &mut Acc, l: L, depth: usize) {
         }
     }
     // two lazy searches alive on the same thread, advanced in every merge order of their next() calls
-    let (p1, p2, _) = phrases(l);
+    let (p1, p2, _) = phrases(l, false);
     let lang = l.facade();
     let solo = |p: &str, thr: f64| -> Vec<String> {
         let t = toks(p);
@@ -318,11 +333,11 @@ fn acc_step<A: Iterator<Item = text2num::Occurence>, B: Iterator<Item = text2num
 }
 
 fn schedules(ctx: &Ctx, acc: &mut Acc, l: L, tier: Tier, instrumented: bool) {
-    let expected: Vec<String> = (0..NCALLS).map(|i| call(&l.facade(), l, i)).collect();
+    let expected: Vec<String> = (0..NCALLS).map(|i| call_on(&l.facade(), l, i, true)).collect();
     let shared: Arc<ForceShare<Language>> = Arc::new(ForceShare(l.facade()));
     let mk = |calls: Vec<usize>| -> Body<Vec<String>> {
         let sh = shared.clone();
-        Arc::new(move || calls.iter().map(|&c| call(&sh.0, l, c)).collect())
+        Arc::new(move || calls.iter().map(|&c| call_on(&sh.0, l, c, true)).collect())
     };
     // the instrumented build has many more scheduling points per call: fewer programs, same bounds
     let ncalls = if instrumented { tier.pick(3usize, 5) } else { tier.pick(5usize, SCHED_CALLS) };
@@ -420,10 +435,18 @@ fn make_shim_copy() -> Result<String, String> {
     let root = verif_root();
     let repo = format!("{root}/harness/repo");
     let dst = format!("{root}/target/shim-src");
-    let _ = std::fs::remove_dir_all(&dst);
     std::fs::create_dir_all(format!("{dst}/src")).map_err(|e| e.to_string())?;
+    // files are only rewritten when their content changes, so cargo rebuilds the copy only when /repo changed
+    fn put(path: &std::path::Path, content: &[u8]) -> Result<(), String> {
+        if std::fs::read(path).map_or(true, |old| old != content) {
+            std::fs::write(path, content).map_err(|e| format!("{}: {e}", path.display()))?;
+        }
+        Ok(())
+    }
+    let mut wanted: std::collections::HashSet<std::path::PathBuf> = Default::default();
     for f in ["Cargo.toml", "Cargo.lock"] {
-        std::fs::copy(format!("{repo}/{f}"), format!("{dst}/{f}")).map_err(|e| format!("{f}: {e}"))?;
+        let c = std::fs::read(format!("{repo}/{f}")).map_err(|e| format!("{f}: {e}"))?;
+        put(std::path::Path::new(&format!("{dst}/{f}")), &c)?;
     }
     let direct = regex::Regex::new(r"(?P<pre>^|[^:\w])std::sync\b").unwrap();
     let grouped = regex::Regex::new(r"^(?P<ind>\s*)(?P<vis>pub(?:\([a-z]+\))? )?use std::\{(?P<body>[^{}]*)\};\s*$").unwrap();
@@ -489,12 +512,25 @@ fn make_shim_copy() -> Result<String, String> {
             if rel == std::path::Path::new("lib.rs") {
                 out.push_str("\n#[doc(hidden)]\npub mod verif_sync;\n");
             }
-            std::fs::write(&to, out).map_err(|e| e.to_string())?;
+            put(&to, out.as_bytes())?;
         } else {
-            std::fs::copy(&f, &to).map_err(|e| e.to_string())?;
+            let c = std::fs::read(&f).map_err(|e| e.to_string())?;
+            put(&to, &c)?;
+        }
+        wanted.insert(to);
+    }
+    let shim = std::fs::read(format!("{root}/shim/verif_sync.rs")).map_err(|e| format!("shim/verif_sync.rs: {e}"))?;
+    let shim_to = std::path::PathBuf::from(format!("{dst}/src/verif_sync.rs"));
+    put(&shim_to, &shim)?;
+    wanted.insert(shim_to);
+    // drop files that no longer exist in /repo
+    let mut present = vec![];
+    walk(std::path::Path::new(&format!("{dst}/src")), &mut present);
+    for p in present {
+        if !wanted.contains(&p) {
+            let _ = std::fs::remove_file(p);
         }
     }
-    std::fs::copy(format!("{root}/shim/verif_sync.rs"), format!("{dst}/src/verif_sync.rs")).map_err(|e| format!("shim/verif_sync.rs: {e}"))?;
     Ok(format!("{rewritten} line(s) of the library redirected from std::sync to the instrumented wrappers"))
 }
 
@@ -512,6 +548,24 @@ pub fn shim_child(tier: Tier) -> i32 {
     println!("{}", json!({"stat": [acc.states, acc.transitions, acc.traces], "counters": acc.extra, "instrumented": cfg!(feature = "shim")}));
     for v in &acc.viols {
         println!("{}", json!({"viol": v.to_json("C14")}));
+    }
+    0
+}
+
+/// `t2n-verif setup`: pre-build everything C14 builds on demand (instrumented variant, compile probe)
+/// so that the first quick run does not pay for it.
+pub fn setup() -> i32 {
+    let root = verif_root();
+    match make_shim_copy() {
+        Ok(m) => println!("setup: instrumented copy generated ({m})"),
+        Err(e) => println!("setup: could not generate the instrumented copy: {e}"),
+    }
+    for (dir, target, args) in [("harness-sync", "sync", vec!["build", "--release", "--offline", "--quiet"]), ("probes/sendsync", "probe", vec!["check", "--offline", "--quiet"])] {
+        let mut a: Vec<String> = args.iter().map(|x| x.to_string()).collect();
+        a.push("--target-dir".into());
+        a.push(format!("{root}/target/{target}"));
+        let st = Command::new("cargo").args(&a).current_dir(format!("{root}/{dir}")).env("CARGO_NET_OFFLINE", "true").stdin(Stdio::null()).status();
+        println!("setup: cargo {} in {dir}: {:?}", args[0], st.map(|s| s.success()));
     }
     0
 }
@@ -586,7 +640,7 @@ pub fn silent_child() -> i32 {
         for i in 0..NCALLS {
             let _ = call(&lang, l, i);
         }
-        let (p1, p2, c) = phrases(l);
+        let (p1, p2, c) = phrases(l, false);
         for s in [p1, p2, c, String::new(), "xyzzy".into()] {
             let _ = guard(|| text2digits(&s, &lang).ok());
             let _ = guard(|| replace_numbers_in_text(&s, &lang, 0.0));
